@@ -1,4 +1,5 @@
 import Eru.Store.ProofsEphemeral
+import Eru.Store.EphemeralUser
 /-
 C26 — ephemeral registrations are exclusive and owner-safe.
 
@@ -349,5 +350,235 @@ theorem etcd_lapse_notified_same_shape (evs : List EEv) (p l : Nat)
     | true => exact absurd (h0.holdKey p l hp ha) hk
   intro ⟨l2, h2⟩
   simp [Etcd.step, hp, hdead] at h2
+
+/-! ### users of ephemeral keys: the service registration loop -/
+
+/-- a failed attempt changes nothing: the loop is still "not registered" and will try again -/
+theorem failed_attempt_keeps_retrying (s : Etcd) (p ttl : Nat) :
+    s.svcAttempt p ttl true = s := by
+  unfold Etcd.svcAttempt
+  cases s.regs p <;> rfl
+
+/-- **service_reregisters_after_lapse**: the service's registration has lapsed and it was told
+    (`notified`) or never held; the key is free.  However many attempts fail first, the first
+    attempt that reaches the store makes it the holder of the key again. -/
+theorem service_reregisters_after_lapse (s : Etcd) (p ttl k : Nat)
+    (hfree : s.key = none) (hnot : ∀ l, s.regs p ≠ .holding l) :
+    let s' := s.svcAttempts p ttl (List.replicate k true ++ [false])
+    s'.regs p = .holding s.next ∧ s'.key = some s.next ∧ s'.alive s.next = true := by
+  induction k with
+  | zero =>
+    simp only [List.replicate, List.nil_append, Etcd.svcAttempts, Etcd.svcAttempt]
+    cases hp : s.regs p with
+    | holding l => exact absurd hp (hnot l)
+    | idle => simp [Etcd.step, hp, hfree]
+    | notified => simp [Etcd.step, hp, hfree]
+  | succ k ih =>
+    simp only [List.replicate, List.cons_append, Etcd.svcAttempts, failed_attempt_keeps_retrying]
+    exact ih
+
+/-- the whole recovery on a reachable state: the holder's lease lapses, its heartbeat notifies it,
+    `k` attempts fail, the next one succeeds — nobody else took the key in between -/
+example :
+    let s := Etcd.run {} [.register 0 3, .expire 0, .heartbeat 0]
+    s.regs 0 = .notified ∧ s.key = none ∧
+    (s.svcAttempts 0 3 [true, true, false]).holdingB 0 = true ∧
+    (s.svcAttempts 0 3 [true, true, false]).key = some 1 := by decide
+
+/-! ### users of ephemeral keys: the single active watcher -/
+
+structure UInv (u : Users) : Prop where
+  etcd : EInv u.etcd
+  cs : ∀ p, u.cs p = true → (∃ l, u.etcd.regs p = .holding l) ∨ u.etcd.regs p = .notified
+
+theorem uinv_init : UInv {} := ⟨einv_init, by intro p h; cases h⟩
+
+theorem regs_step_other (s : Etcd) (ev : EEv) (p : Nat) (h : NotBy p ev) :
+    (s.step ev).1.regs p = s.regs p := by
+  cases ev with
+  | register q ttl =>
+    simp only [NotBy] at h
+    have hpq : ¬ p = q := fun e => h e.symm
+    simp only [Etcd.step]
+    cases s.regs q <;> simp only [] <;> (try rfl) <;> (split <;> simp [hpq])
+  | heartbeat q =>
+    simp only [NotBy] at h
+    have hpq : ¬ p = q := fun e => h e.symm
+    simp only [Etcd.step]
+    cases s.regs q <;> simp only [] <;> (try rfl)
+    split <;> simp [hpq]
+  | deregister q =>
+    simp only [NotBy] at h
+    have hpq : ¬ p = q := fun e => h e.symm
+    simp only [Etcd.step]
+    cases s.regs q <;> simp [Etcd.revoke, hpq]
+  | expire l =>
+    simp only [Etcd.step]
+    split <;> simp [Etcd.revoke]
+
+theorem uinv_step {u : Users} (h : UInv u) (ev : UEv) : UInv (u.step ev) := by
+  cases ev with
+  | register p ttl =>
+    simp only [Users.step]
+    by_cases hc : u.cs p = true
+    · simpa [hc] using h
+    · simp only [hc, Bool.false_eq_true, ↓reduceIte]
+      refine ⟨einv_step h.etcd _, ?_⟩
+      intro q hq
+      have hqp : q ≠ p := by intro e; subst e; exact hc hq
+      rw [regs_step_other _ _ q (by simpa [NotBy] using hqp.symm)]
+      exact h.cs q hq
+  | enter p =>
+    simp only [Users.step]
+    cases hp : u.etcd.regs p with
+    | idle => simpa [hp] using h
+    | notified => simpa [hp] using h
+    | holding l =>
+      simp only []
+      refine ⟨h.etcd, ?_⟩
+      intro q hq
+      by_cases e : q = p
+      · subst e; exact Or.inl ⟨l, hp⟩
+      · simp only [e, ↓reduceIte] at hq; exact h.cs q hq
+  | heartbeat p =>
+    simp only [Users.step]
+    refine ⟨einv_step h.etcd _, ?_⟩
+    intro q hq
+    by_cases e : q = p
+    · subst e
+      rcases h.cs q hq with ⟨l, hl⟩ | hn
+      · by_cases ha : u.etcd.alive l = true
+        · exact Or.inl ⟨l, by simp [Etcd.step, hl, ha]⟩
+        · exact Or.inr (by simp [Etcd.step, hl, ha])
+      · exact Or.inr (by simp [Etcd.step, hn])
+    · rw [regs_step_other _ _ q (by simpa [NotBy] using (Ne.symm e))]
+      exact h.cs q hq
+  | observe p =>
+    simp only [Users.step]
+    cases hp : u.etcd.regs p with
+    | idle => simpa [hp] using h
+    | holding l => simpa [hp] using h
+    | notified =>
+      simp only []
+      refine ⟨h.etcd, ?_⟩
+      intro q hq
+      by_cases e : q = p
+      · simp [e] at hq
+      · simp only [e, ↓reduceIte] at hq; exact h.cs q hq
+  | leave p =>
+    simp only [Users.step]
+    refine ⟨einv_step h.etcd _, ?_⟩
+    intro q hq
+    by_cases e : q = p
+    · simp [e] at hq
+    · simp only [e, ↓reduceIte] at hq
+      rw [regs_step_other _ _ q (by simpa [NotBy] using (Ne.symm e))]
+      exact h.cs q hq
+  | expire l =>
+    simp only [Users.step]
+    refine ⟨einv_step h.etcd _, ?_⟩
+    intro q hq
+    rw [regs_step_other _ _ q (by simp [NotBy])]
+    exact h.cs q hq
+
+theorem uinv_run (evs : List UEv) : ∀ u, UInv u → UInv (Users.run u evs) := by
+  induction evs with
+  | nil => intro u h; exact h
+  | cons ev t ih => intro u h; exact ih _ (uinv_step h ev)
+
+/-- **lapse_cancels_critical_section**: once a watcher's registration has lapsed, its next
+    heartbeat closes the expiry channel and the goroutine watching that channel ends the
+    critical section — one step after the notification. -/
+theorem lapse_cancels_critical_section (u : Users) (p l : Nat)
+    (hp : u.etcd.regs p = .holding l) (hdead : u.etcd.alive l = false) :
+    ((u.step (.heartbeat p)).step (.observe p)).cs p = false := by
+  simp [Users.step, Etcd.step, hp, hdead]
+
+/-- **one_active_watcher**: in every reachable state, after each of two watchers has had a
+    heartbeat and its expiry goroutine has run, at most one of them is in its critical section. -/
+theorem one_active_watcher (evs : List UEv) (p q : Nat) :
+    let u := (Users.run {} evs).run [.heartbeat p, .observe p, .heartbeat q, .observe q]
+    u.cs p = true → u.cs q = true → p = q := by
+  intro u hp hq
+  by_cases hpq : p = q
+  · exact hpq
+  · exfalso
+    have hu : UInv u := uinv_run _ _ (uinv_run evs {} uinv_init)
+    -- name the intermediate states
+    let u0 := Users.run {} evs
+    let u1 := u0.step (.heartbeat p)
+    let u2 := u1.step (.observe p)
+    let u3 := u2.step (.heartbeat q)
+    have hu_eq : u = u3.step (.observe q) := rfl
+    have i2 : UInv u2 := uinv_step (uinv_step (uinv_run evs {} uinv_init) _) _
+    have i3 : UInv u3 := uinv_step i2 _
+    -- q: in its critical section after its own observe ⇒ holding after its heartbeat
+    have hq3cs : u3.cs q = true := by
+      rw [hu_eq] at hq
+      simp only [Users.step] at hq
+      cases hr : u3.etcd.regs q with
+      | notified => simp [hr] at hq
+      | idle => simpa [hr] using hq
+      | holding l => simpa [hr] using hq
+    have hq3 : ∃ l', u3.etcd.regs q = .holding l' := by
+      rcases i3.cs q hq3cs with h | h
+      · exact h
+      · exfalso
+        rw [hu_eq] at hq
+        simp [Users.step, h] at hq
+    obtain ⟨l', hl'⟩ := hq3
+    have aq : u2.etcd.alive l' = true := hb_holding_alive _ q l' hl'
+    -- p: cs survives q's steps; after its own observe it was holding
+    have hp3cs : u3.cs p = true := by
+      rw [hu_eq] at hp
+      simp only [Users.step] at hp
+      cases hr : u3.etcd.regs q <;> simp [hr, hpq] at hp <;> exact hp
+    have hp2cs : u2.cs p = true := hp3cs
+    have hp1cs : u1.cs p = true := by
+      have : u2.cs p = true := hp2cs
+      simp only [u2, Users.step] at this
+      cases hr : u1.etcd.regs p with
+      | notified => simp [hr] at this
+      | idle => simpa [hr] using this
+      | holding l => simpa [hr] using this
+    have i1 : UInv u1 := uinv_step (uinv_run evs {} uinv_init) _
+    have hp1 : ∃ l, u1.etcd.regs p = .holding l := by
+      rcases i1.cs p hp1cs with h | h
+      · exact h
+      · exfalso
+        have : u2.cs p = true := hp2cs
+        simp [u2, Users.step, h] at this
+    obtain ⟨l, hl⟩ := hp1
+    have ap0 : u0.etcd.alive l = true := hb_holding_alive _ p l hl
+    -- etcd states: u2.etcd = u1.etcd, u3.etcd = step (heartbeat q), u.etcd = u3.etcd
+    have e21 : u2.etcd = u1.etcd := by
+      simp only [u2, Users.step]; cases u1.etcd.regs p <;> rfl
+    have eu3 : u.etcd = u3.etcd := by
+      rw [hu_eq]; simp only [Users.step]; cases u3.etcd.regs q <;> rfl
+    have ap1 : u1.etcd.alive l = true := by
+      show ((u0.etcd.step (.heartbeat p)).1).alive l = true
+      rw [hb_alive]; exact ap0
+    have ap3 : u3.etcd.alive l = true := by
+      show ((u2.etcd.step (.heartbeat q)).1).alive l = true
+      rw [hb_alive, e21]; exact ap1
+    have aq3 : u3.etcd.alive l' = true := by
+      show ((u2.etcd.step (.heartbeat q)).1).alive l' = true
+      rw [hb_alive]; exact aq
+    have hl3 : u3.etcd.regs p = .holding l := by
+      show ((u2.etcd.step (.heartbeat q)).1).regs p = .holding l
+      rw [hb_regs_other _ q p hpq, e21]; exact hl
+    have k1 := i3.etcd.holdKey p l hl3 ap3
+    have k2 := i3.etcd.holdKey q l' hl' aq3
+    rw [k1] at k2
+    have : l = l' := Option.some.inj k2
+    subst this
+    exact hpq (i3.etcd.holdInj p q l hl3 hl')
+
+/-- non-trivial schedule: 0 active, lapse, 1 takes over and enters; after heartbeats and
+    observations only 1 is in its critical section -/
+example :
+    let u := Users.run {} [.register 0 3, .enter 0, .register 1 3, .expire 0, .register 1 3, .enter 1,
+                           .heartbeat 0, .observe 0, .heartbeat 1, .observe 1]
+    u.cs 0 = false ∧ u.cs 1 = true ∧ u.etcd.key = some 2 := by decide
 
 end Eru.Props.C26
